@@ -13,7 +13,7 @@ LEVEL_TEXT = ("HlsMuxer.tla transcribes the goroutines of internal/servers/hls (
               "requests, harness path manager), and TLC re-evaluates the same formulas on what the real server showed after every "
               "operation and checks that the run is a behaviour of the model (conformance, DRIFT only)")
 LEVEL_NOTE = ("bounded: 2 paths, both configurations (hlsAlwaysRemux with one sourceOnDemand path / on demand), <= 4 environment "
-              "operations exhaustively in the quick tier (6 atomically / 4 interleaved in the thorough tier), walks of 8 operations; "
+              "operations at rest points / 2 fully interleaved in the quick tier (6 / 4 in the thorough tier), walks of <= 4 (6) operations plus Close; "
               "hlsMuxerCloseAfter = 3 s (activity check every second) is waited for in real time, the 10 s re-creation pause likewise (few walks); time bounds are "
               "only ever used as lower bounds (too early = violation, too late = inconclusive); createInstance failures and session "
               "expiry are not modelled; quiescence of the real server is detected from goroutine states (runtime.Stack), the muxer's "
@@ -76,22 +76,31 @@ def select_walks(cands, seed, n_pause, n_idle, n_plain):
         uniq.setdefault(key, c)
     pool = [uniq[k] for k in sorted(uniq)]
     rnd.shuffle(pool)
-    weight = {}
+    weight, depth = {}, {}
     for c in pool:
         c["_pairs"] = set()
-        for o in c["ops"]:
+        for i, o in enumerate(c["ops"]):
             sc = scenario(c["conf"], o)
             c["_pairs"].add(sc)
-            # the walks that wait in real time exist for the operations that involve time (time passes; a request
-            # meets a muxer that has aged or that pauses after a crash): those classes count tenfold and more, the
-            # more so the longer the history of ageing and refreshing behind them is
+            depth[sc] = min(depth.get(sc, 99), i + 1)
+            # bonus for the classes the expensive machinery exists for:
+            #  - time: the walks that wait in real time exist for the operations that involve time (time passes; a
+            #    request meets a muxer that has aged or that pauses after a crash), the more so the longer the history
+            #    of ageing and refreshing behind them is;
+            #  - races: a muxer is held in its teardown (where the races with the server's map are)
             mine = [m for m in o["v"]["mx"] if not o["p"] or m["p"] == o["p"]]
             if o["k"] in ("idle", "wait", "pause"):
                 weight[sc] = 10 * (1 + max([m["life"] for m in mine] + [0]))
             elif o["k"] == "open" and any(m["life"] > 0 or (m["auto"] and m["shown"] and not m["inst"]) for m in mine):
                 weight[sc] = 10
+            elif any(m["pc"] == "exit" for m in mine):
+                weight[sc] = 8 if len(mine) >= 2 else 4
             else:
-                weight[sc] = 1
+                weight[sc] = 0
+    # breadth first: a class that a short walk reaches (the plain scenarios) counts more than a deep one
+    for sc in weight:
+        weight[sc] += 12.0 / depth[sc]
+    for c in pool:
         ks = {o["k"] for o in c["ops"]}
         c["_cls"] = "pause" if "pause" in ks else ("idle" if ("idle" in ks or "wait" in ks) else "plain")
     total = set().union(*[c["_pairs"] for c in pool]) if pool else set()
@@ -139,7 +148,7 @@ def run(ctx):
     # ---------------------------------------------------------------- bounded model (runs beside the replay)
     mc_err = []
 
-    a_ops, i_ops = ctx.pick((4, 3), (6, 4))
+    a_ops = ctx.pick(4, 6)
     lock = threading.Lock()
 
     def mc(module, cfg, **kw):
@@ -163,16 +172,26 @@ def run(ctx):
 
     def model_check_inter():
         try:
-            mc("HlsMuxer", write_cfg(d, "HlsMuxer_inter.cfg", ops=i_ops, atomic="FALSE",
-                                     rest="INVARIANTS TypeOK InvRest InvAlways"),
-               workers=1, timeout=1500)
-            # the hand-written definition of "at rest" is the absence of enabled internal steps; the server always comes to rest
+            # every interleaving of environment and internal steps; the hand-written definition of "at rest" is the absence
+            # of enabled internal steps; under weak fairness of the internal steps the server always comes to rest again
+            if ctx.thorough:
+                mc("HlsMuxer", write_cfg(d, "HlsMuxer_inter.cfg", ops=4, atomic="FALSE",
+                                         rest="INVARIANTS TypeOK InvRest InvAlways"),
+                   workers=1, timeout=1500)
             mc("HlsMuxer", write_cfg(d, "HlsMuxer_live.cfg", spec="FairSpec", ops=ctx.pick(2, 3), atomic="FALSE",
-                                     rest="INVARIANTS QuiescentDef\nPROPERTY Progress"),
+                                     rest="INVARIANTS TypeOK InvRest InvAlways QuiescentDef\nPROPERTY Progress"),
                workers=1, timeout=1500)
         except Exception as e:  # re-raised in the main thread
             mc_err.append(e)
 
+    def warm_build():
+        # compiles the harness into the go build cache while TLC generates the walks (no test is run)
+        try:
+            vf.gotest(ctx, "./internal/servers/hls/", "^TestVerif_X03_NoSuchTest$", timeout=600)
+        except Exception:
+            pass
+
+    threading.Thread(target=warm_build, daemon=True).start()
     ths = [threading.Thread(target=f) for f in (model_check_atomic, model_check_inter)]
     if os.environ.get("VERIF_X03_REPLAY_ONLY"):  # development aid (mutant runs): the model is the same, skip it
         ths = []
@@ -207,7 +226,7 @@ def replay(ctx, d):
     # ---------------------------------------------------------------- walks from TLC (BFS of the atomic model through GenView)
     # exhaustive over the atomic model seen through GenView: one walk (a shortest one) for every operation at every
     # abstract rest state
-    g_ops = ctx.pick(5, 6)
+    g_ops = ctx.pick(4, 6)
     gen = vf.tlc(ctx, "HlsMuxer", write_cfg(d, "HlsMuxer_gen.cfg", ops=g_ops, mux=g_ops + 2, inst=g_ops + 4, sess=g_ops, record="TRUE",
                                             rest="VIEW GenView\nACTION_CONSTRAINT EmitEdge"),
                  workers=1, timeout=900)
@@ -215,7 +234,7 @@ def replay(ctx, d):
     cands = gen.tagged("WALK")
     if len(cands) < 50:
         raise vf.Infra("the generator produced only %d walks" % len(cands))
-    n_pause, n_idle, n_plain = ctx.pick((1, 5, 56), (8, 56, 300))
+    n_pause, n_idle, n_plain = ctx.pick((1, 4, 70), (8, 56, 300))
     chosen, cov, tot = select_walks(cands, ctx.seed, n_pause, n_idle, n_plain)
     order = {"pause": 0, "idle": 1, "plain": 2}
     chosen.sort(key=lambda c: order[c["_cls"]])
